@@ -429,6 +429,40 @@ func normalizations() {
 		rep("normalizations-load", "second load fails: %v", err2)
 		return
 	}
+	// the table is loaded once per process: whatever order-dependence a load has shows up only
+	// across loads (e.g. Go's randomised map iteration) - 200 more loads, candidate order per
+	// record type and per syscall compared with the first
+	for k := 0; k < 200; k++ {
+		sysK, recK, errK := aucoalesce.LoadNormalizationConfig(b)
+		evals++
+		if errK != nil {
+			rep("normalizations-load", "load %d fails: %v", k+3, errK)
+			break
+		}
+		bad := ""
+		for r, a1 := range rec1 {
+			ak := recK[r]
+			if len(ak) != len(a1) {
+				bad = r
+				break
+			}
+			for i := range a1 {
+				if a1[i].Action != ak[i].Action || fmt.Sprint(a1[i].HasFields.Values) != fmt.Sprint(ak[i].HasFields.Values) {
+					bad = r
+				}
+			}
+		}
+		for sname, n1 := range sys1 {
+			if nk := sysK[sname]; nk == nil || nk.Action != n1.Action {
+				bad = "syscall " + sname
+			}
+		}
+		if bad != "" {
+			rep("normalization-order-differs-between-loads", "load %d of the same normalizations.yaml orders / selects the candidates for %s differently from the first load, so which normalisation an event gets depends on the process", k+3, bad)
+			break
+		}
+		nontriv++
+	}
 	known := map[string]bool{"*": true}
 	for _, t := range auparse.AuditSyscalls {
 		for _, n := range t {
